@@ -78,6 +78,8 @@ pub struct Profile {
     /// permille of runs in which the quarantined features (counters in sequences, increments on conflicted
     /// registers) are switched ON so that the area of the corresponding known findings stays watched
     pub quarantine_on_permille: u32,
+    /// share of runs with large splices / deletes (long texts, long deleted chains, multi-slab columns)
+    pub big_permille: u32,
     /// allow the per-run swarm to zero out families
     pub swarm: bool,
     /// long single-actor chains (to reach clock caches / slab splits)
@@ -152,7 +154,8 @@ impl Default for Profile {
             connect_all_at_permille: None,
             id_fuzz_kinds: (0..13).collect(),
             tables: false,
-            quarantine_on_permille: 0,
+            quarantine_on_permille: 120,
+            big_permille: 80,
             swarm: true,
             long_chain_permille: 30,
             bloom_fp: vec![0],
@@ -222,7 +225,7 @@ fn sel(rng: &mut Rng, confused: bool) -> ObjSel {
     }
 }
 
-pub fn gen_edit(rng: &mut Rng, p: &Profile, w: &[u32]) -> EditOp {
+pub fn gen_edit(rng: &mut Rng, p: &Profile, w: &[u32], big: bool) -> EditOp {
     let confused = rng.chance(p.confused_permille);
     let o = sel(rng, confused);
     // non-root selection for sequence-typed ops
@@ -260,14 +263,14 @@ pub fn gen_edit(rng: &mut Rng, p: &Profile, w: &[u32]) -> EditOp {
         6 => EditOp::SpliceText {
             obj: os,
             pos: rng.next_u32(),
-            del: if rng.chance(400) { rng.below(4) as u32 } else { 0 },
-            text: if rng.chance(150) { String::new() } else { gen_text(rng, p.unicode, 6) },
+            del: if big && rng.chance(300) { rng.below(56) as u32 } else if rng.chance(400) { rng.below(4) as u32 } else { 0 },
+            text: if rng.chance(150) { String::new() } else { gen_text(rng, p.unicode, if big { 48 } else { 6 }) },
         },
         7 => EditOp::Splice {
             obj: os,
             pos: rng.next_u32(),
-            del: if rng.chance(400) { rng.below(3) as u32 } else { 0 },
-            vals: (0..rng.usize(4)).map(|_| gen_scalar(rng, p.unicode)).collect(),
+            del: if big && rng.chance(300) { rng.below(40) as u32 } else if rng.chance(400) { rng.below(3) as u32 } else { 0 },
+            vals: (0..rng.usize(if big { 40 } else { 4 })).map(|_| gen_scalar(rng, p.unicode)).collect(),
         },
         8 => EditOp::Mark {
             obj: os,
@@ -296,7 +299,7 @@ pub fn gen_edit(rng: &mut Rng, p: &Profile, w: &[u32]) -> EditOp {
         },
         _ => EditOp::UpdateText {
             obj: os,
-            text: gen_text(rng, p.unicode, 10),
+            text: gen_text(rng, p.unicode, if big { 70 } else { 10 }),
         },
     }
 }
@@ -355,6 +358,7 @@ pub fn gen_run(seed: u64, p: &Profile) -> (Cfg, Vec<Ev>) {
         a.min(b) as usize
     };
     let quarantine_on = rng.chance(p.quarantine_on_permille);
+    let big = rng.chance(p.big_permille);
     let cfg = Cfg {
         replicas,
         enc: *rng.pickv(&p.encs),
@@ -456,7 +460,7 @@ pub fn gen_run(seed: u64, p: &Profile) -> (Cfg, Vec<Ev>) {
         let r = if long_chain && rng.chance(700) { hot } else { rng.below(rmax) as u8 };
         let r2 = rng.below(rmax) as u8;
         let ev = match rng.weighted(&fam) {
-            0 => Ev::Edit { r, op: gen_edit(&mut rng, p, &ew) },
+            0 => Ev::Edit { r, op: gen_edit(&mut rng, p, &ew, big) },
             1 => Ev::Commit {
                 r,
                 msg: if rng.chance(200) { Some(gen_text(&mut rng, p.unicode, 4)) } else { None },
